@@ -6,6 +6,7 @@ mod errclass;
 mod exec;
 mod lex;
 mod mnemonic;
+mod numeric;
 mod queue;
 mod status;
 mod util;
@@ -23,6 +24,9 @@ fn main() {
         "lex-replay" => lex::replay(rest),
         "mnem-replay" => mnemonic::replay(rest),
         "mnem-rows" => mnemonic::rows(rest),
+        "num-rows-c07" => numeric::rows_c07(rest),
+        "num-rows-c08" => numeric::rows_c08(rest),
+        "num-rows-c17" => numeric::rows_c17(rest),
         "queue-edges" => queue::replay_edges(rest),
         "queue-trace" => queue::record_trace(rest),
         "status-edges" => status::replay_edges(rest),
